@@ -106,7 +106,7 @@ pub fn unwrap_rejects_tamper(KL: usize, RELABEL: bool) {
         (!rejected || kind_ok, "[C06] an authentication failure of a wrapped key is CryptoError"),
         (!rejected || untouched, "[C06] the wrapped key is not decrypted before authentication succeeds"),
     );
-    if !RELABEL { kani::cover!(which == 0); kani::cover!(which == 1); }
+    kani::cover!(RELABEL || which == 0, "blob bit flip explored"); kani::cover!(RELABEL || which == 1, "other wrapping key explored");
 }
 
 /// [C04] blobs of every length class: no panic; shorter than tag+nonce => InvalidKey
